@@ -90,6 +90,25 @@ fn compressor(run: &mut Run, tier: Tier) {
 /// After every compress() the bytes appended to the drain must be exactly one well-formed frame (strict walker:
 /// includes the trailing checksum) that regenerates what the source still held, also for libzstd; the source must
 /// be exhausted afterwards; take_* must hand back what the model holds.
+/// the source type of the protocol exploration: a slice handed out whole (k = 0) or k bytes per read call
+pub struct ChunkSrc<'a> {
+    data: &'a [u8],
+    k: usize,
+}
+impl<'a> ChunkSrc<'a> {
+    fn len(&self) -> usize {
+        self.data.len()
+    }
+}
+impl std::io::Read for ChunkSrc<'_> {
+    fn read(&mut self, buf: &mut [u8]) -> std::io::Result<usize> {
+        let n = buf.len().min(if self.k == 0 { usize::MAX } else { self.k }).min(self.data.len());
+        buf[..n].copy_from_slice(&self.data[..n]);
+        self.data = &self.data[n..];
+        Ok(n)
+    }
+}
+
 pub fn compressor_protocol(run: &mut Run, tier: Tier, prop: &str) {
     #[derive(Clone, Copy, Debug, PartialEq)]
     enum P {
@@ -143,12 +162,14 @@ pub fn compressor_protocol(run: &mut Run, tier: Tier, prop: &str) {
     }
     let mut seqs = vec![];
     enumerate(&alphabet, depth, &mut vec![], false, false, &mut seqs);
-    let accs = crate::meter::par_fold(seqs.len(), crate::meter::threads(), crate::c12::Acc::default, |a, si| {
-        let seq = &seqs[si];
+    // every sequence twice: sources handed out whole, and 3 bytes per read call (a block then arrives in many reads)
+    let accs = crate::meter::par_fold(seqs.len() * 2, crate::meter::threads(), crate::c12::Acc::default, |a, si| {
+        let seq = &seqs[si / 2];
+        let chunk = if si % 2 == 0 { 0usize } else { 3 };
         a.evals += 1;
-        let rp = json!({"case": "compressor_protocol", "operations": seq.iter().map(|o| format!("{o:?}")).collect::<Vec<_>>()});
+        let rp = json!({"case": "compressor_protocol", "source_bytes_per_read": chunk, "operations": seq.iter().map(|o| format!("{o:?}")).collect::<Vec<_>>()});
         let r = guarded(|| -> Option<(String, String)> {
-            let mut c: FrameCompressor<&[u8], Vec<u8>, _> = FrameCompressor::new(CompressionLevel::Fastest);
+            let mut c: FrameCompressor<ChunkSrc, Vec<u8>, _> = FrameCompressor::new(CompressionLevel::Fastest);
             let mut src: Option<&[u8]> = None; // model: bytes the source still holds
             let mut drain: Option<Vec<u8>> = None; // model: what the drain must hold
             let mut level = CompressionLevel::Fastest; // model: the level in force
@@ -156,14 +177,14 @@ pub fn compressor_protocol(run: &mut Run, tier: Tier, prop: &str) {
             for (k, op) in seq.iter().enumerate() {
                 match *op {
                     P::SetSource(i) => {
-                        let old = c.set_source(ins[i].as_slice());
-                        if old.map(|o| o.len()) != src.map(|s| s.len()) {
-                            return Some(("set_source:returned".into(), format!("operation {k}: set_source returned a source holding {:?} bytes, expected {:?}", old.map(|o| o.len()), src.map(|s| s.len()))));
+                        let old = c.set_source(ChunkSrc { data: ins[i].as_slice(), k: chunk }).map(|o| o.len());
+                        if old != src.map(|s| s.len()) {
+                            return Some(("set_source:returned".into(), format!("operation {k}: set_source returned a source holding {:?} bytes, expected {:?}", old, src.map(|s| s.len()))));
                         }
                         src = Some(ins[i].as_slice());
                     }
                     P::Refill(i) => {
-                        *c.source_mut().unwrap() = ins[i].as_slice();
+                        *c.source_mut().unwrap() = ChunkSrc { data: ins[i].as_slice(), k: chunk };
                         src = Some(ins[i].as_slice());
                     }
                     P::SetDrain => {
@@ -187,7 +208,7 @@ pub fn compressor_protocol(run: &mut Run, tier: Tier, prop: &str) {
                         }
                     }
                     P::TakeSource => {
-                        let got = c.take_source();
+                        let got = c.take_source().map(|g| g.data);
                         if got != src.take() {
                             return Some(("take_source".into(), format!("operation {k}: take_source handed back {:?} bytes", got.map(|g| g.len()))));
                         }
@@ -223,8 +244,8 @@ pub fn compressor_protocol(run: &mut Run, tier: Tier, prop: &str) {
         });
         match r {
             Ok(None) => a.nontrivial += 1,
-            Ok(Some((id, what))) => a.bad(format!("compressor_protocol:{id}"), format!("FrameCompressor driven by {:?}: {what}", seq), rp),
-            Err(p) => a.bad(format!("compressor_protocol:panic:{}", p.rsplit(" @ ").next().unwrap_or("")), format!("FrameCompressor driven by {:?} panicked: {p}", seq), rp),
+            Ok(Some((id, what))) => a.bad(format!("compressor_protocol:{id}"), format!("FrameCompressor driven by {:?} (source handing out {} per read): {what}", seq, if chunk == 0 { "everything".to_string() } else { format!("{chunk} bytes") }), rp),
+            Err(p) => a.bad(format!("compressor_protocol:panic:{}", p.rsplit(" @ ").next().unwrap_or("")), format!("FrameCompressor driven by {:?} (source handing out {} per read) panicked: {p}", seq, if chunk == 0 { "everything".to_string() } else { format!("{chunk} bytes") }), rp),
         }
     });
     crate::c12::merge(run, prop, &format!("compressor_protocol_all_operation_sequences_depth_{depth}"), accs, true);
